@@ -93,6 +93,16 @@ def impl():
     return _IMPL
 
 
+def fresh_modules():
+    """forget every module of the library (and its vendored voluptuous): the next impl() imports pristine copies, so
+    parser caches, class attributes and module globals start from scratch -- the baseline of the history probes"""
+    import sys
+    for name in list(sys.modules):
+        if name.split('.')[0] in ('mitxgraders', 'voluptuous'):
+            del sys.modules[name]
+    _IMPL.clear()
+
+
 def build_grader(spec):
     I = impl()
     mg = I['mg']
@@ -102,6 +112,10 @@ def build_grader(spec):
     def kwargs_of(c):
         k = dict(c)
         k['user_functions'] = {n: USER_FUNCS[n] for n in c.get('user_functions', [])}
+        if 'sample_from' in k:           # ('dependent', depends, formula) stands for a DependentSampler
+            k['sample_from'] = {n: (mg.DependentSampler(depends=list(v[1]), formula=v[2])
+                                    if isinstance(v, tuple) and v and v[0] == 'dependent' else v)
+                                for n, v in k['sample_from'].items()}
         return k
     list_debug = cfg.pop('_list_debug', False)
     if cls == 'List':
@@ -250,12 +264,21 @@ def observe(spec):
     """run one case on the implementation; everything returned is plain data"""
     rec = {'samples': [], 'raw': [], 'sums': []}
     out = {'id': spec['id']}
+    if spec.get('fresh'):
+        fresh_modules()
     with Wrappers(rec):
         st, gs = core.guarded(build_grader, spec)
         if st != 'ret':
             out['construct_error'] = '%s: %s' % (type(gs).__name__, gs)
             return out
         g, sub = gs
+        # history: earlier submissions to the same grader (and to the process-wide parser); only the last call is the case
+        out['history'] = []
+        for h in spec.get('history', []):
+            hs, hr = core.guarded(g, None, h)
+            out['history'].append(exc_class(hs, hr))
+        for k in ('samples', 'raw', 'sums'):
+            del rec[k][:]
         st, r = core.guarded(g, None, spec['input'])
     out['code'], out['detail'] = classify(st, r, spec['cls'] == 'List')
     out['exc'] = exc_class(st, r)
@@ -632,6 +655,120 @@ class Gen:
             self.add('Sum', scfg, author, ['1', '4', 'a*n+0*z', 'n'], 'instructor', 'undefined', honest=honest, twin=honest,
                      entered=FIELDS, term='z', place='summand', corpus='options')
 
+    def fresh_term(self):
+        """a neutral term never seen before in this run: the parse cache is keyed by the space-free text"""
+        self.counter = getattr(self, 'counter', 0) + 1
+        return '+0*%d' % (100000 + 977 * self.counter)
+
+    def perturbers(self, mention):
+        """inputs that make the engine fail in every way, each mentioning ALL the constructs in `mention` first (what is left
+        behind by a failure is what was seen before it); returns {kind of failure: [inputs]}.  Whether an over-deep nesting
+        ends in the parser's own error or in a RecursionError somewhere else depends on the depth and on the stack below
+        the call, so several depths and shapes are used."""
+        rng = self.rng
+        m = '(' + '+'.join(mention) + ')'
+        out = {'unbalanced': [rng.choice(['0*%s+((1', '0*%s+*2)']) % m], 'unparsable': ['0*%s+ 2 3 $' % m],
+               'undefined': ['0*%s+0*qq(1)' % m]}
+        for i, k in enumerate(rng.sample([55, 70, 90, 120, 180, 250, 330, 400], 3)):
+            out['deep-parens-%d' % i] = ['0*%s+%s1%s' % (m, '(' * k, ')' * k)]
+            out['deep-brackets-%d' % i] = ['0*%s*%s1%s' % (m, '[' * k, ']' * k)]
+            out['deep-calls-%d' % i] = ['0*%s+%s1%s' % (m, 'uf(' * k, ')' * k)]
+        return out
+
+    def history_family(self, cls):
+        """perturb-then-probe: engine-breaking submissions first, then fresh spellings of the honest answer and of cheats;
+        each probe is also evaluated without history in freshly imported modules (the baseline)"""
+        rng = self.rng
+        cfg, restricted, allowed = base_cfg(rng, restr=({'blacklist': ['tan', 'sinh']}, ['tan', 'sinh'], ALWAYS + ['sin', 'cos', 'sqrt']))
+        cfg.update(author_options(rng, cls))
+        cfg.pop('_list_debug', None)
+        fn, needs, At, Bt = rng.choice(REQUIRED_PROBLEMS)
+        cfg['required_functions'] = [fn]
+        cfg['instructor_vars'] = ['z']
+        A = H = At.format(v='x', w='y')
+        omit = Bt.format(v='x', w='y')
+        if cls == 'Numerical':
+            for k in ('variables', 'numbered_vars', 'sample_from', 'samples', 'failable_evals'):
+                cfg.pop(k, None)
+            cfg['user_constants'] = {'c': 3.0, 'd': 2.0}
+            cfg['instructor_vars'] = ['c']
+            A = H = At.format(v='d', w='2')
+            omit = Bt.format(v='d', w='2')
+        mention = ['%s(%s)' % (fn, 'd' if cls == 'Numerical' else 'x'), 'tan(1)', cfg['instructor_vars'][0], 'Sin(1)']
+        if cls == 'Matrix':
+            cfg['max_array_dim'] = 1
+            A, H, omit = '[%s,1]' % A, '[%s,1]' % H, '[%s,1]' % omit
+        wrap = (lambda t: t)
+        answers = A
+        if cls == 'List':
+            answers = [A, 'x+1']
+            wrap = (lambda t: [t, 'x+1'])
+        gcls = cls
+        kinds_of_failure = sorted(self.perturbers(mention))
+        probes = [('history-honest', H, 'credit', None),
+                  ('required', omit, 'invalid', None),
+                  ('func', H + '+0*tan(1)', 'invalid', 'tan(1)'),
+                  ('instructor', H + '+0*' + cfg['instructor_vars'][0], 'undefined', cfg['instructor_vars'][0])]
+        honest = None
+        # every probe is tried after every kind of failure as the LAST submission before it (a failure that is followed by
+        # another first-time parse hands its leftovers to that one, not to the probe)
+        for last in kinds_of_failure:
+            for kind, text0, expect, term in probes:
+                # what a failed submission leaves behind is what it mentioned: for a cheat that omits the required function
+                # only that function (anything else would get the probe refused for another reason), for the honest answer
+                # one of the constructs closed to students, otherwise any of them
+                if kind == 'required':
+                    pert = self.perturbers(mention[:1])
+                elif kind == 'history-honest':
+                    pert = self.perturbers([rng.choice(mention[1:])])
+                else:
+                    pert = self.perturbers(rng.sample(mention, rng.randint(1, len(mention))))
+                fresh = self.fresh_term()
+                text = (text0[:-1] + fresh + ']') if cls == 'Matrix' and text0.endswith(']') else text0 + fresh
+                others = [h for k2 in pert if k2 != last for h in pert[k2]]
+                rng.shuffle(others)
+                history = [wrap(h) for h in others[:rng.randint(1, 4)] + [rng.choice(pert[last])]]
+                base = self.add(gcls, cfg, answers, wrap(text), 'baseline', None, fresh=True)
+                extra = {'term': term} if term else {}
+                if cls == 'List':
+                    extra['box'] = 0
+                sid = self.add(gcls, cfg, answers, wrap(text), kind, expect, honest=honest, twin=honest, history=history,
+                               baseline=base, corpus='history', last_failure=last, **extra)
+                if kind == 'history-honest' and honest is None:
+                    honest = sid
+
+    def sampler_sibling_family(self):
+        """ordered lists in which a sibling reaches the grader through a DependentSampler of sample_from, not through the
+        answer: it is sampled, so it must be scrubbed from the student's scope like any other sibling"""
+        rng = self.rng
+        n = rng.choice([2, 3])
+        src = rng.randrange(n)                        # the box the sampler depends on
+        key = 'sibling_%d' % (src + 1)
+        cfg = {'variables': ['x', 's'], 'user_functions': ['uf'], 'forbidden_message': FORBIDDEN_MESSAGE,
+               'sample_from': {'x': [1, 3], 's': ('dependent', [key], rng.choice(['%s+1', '2*%s', '%s^2']) % key)}}
+        cfg.update(author_options(rng, 'List'))
+        formula = cfg['sample_from']['s'][2]
+        answers = ['x+%d' % (i + 1) for i in range(n)]
+        honest_in = ['%d+x' % (i + 1) for i in range(n)]
+        user = rng.choice([i for i in range(n) if i != src])       # the box whose answer is the sampled variable
+        answers[user] = rng.choice(['s', 's+x', '2*s'])
+        honest_in[user] = answers[user].replace('s', '(' + formula.replace(key, '(' + honest_in[src] + ')') + ')')
+        honest = self.add('List', cfg, answers, list(honest_in), 'honest', 'credit', shape='sampler')
+        for box in range(n):
+            tmpl, _ = rng.choice(NEUTRAL)
+
+            def with_box(t, box=box, tmpl=tmpl):
+                inp = list(honest_in)
+                inp[box] = spaced(rng, tmpl.format(H=honest_in[box], T=t))
+                return inp
+            twin = self.add('List', cfg, answers, with_box('x'), 'control', 'credit', honest=honest, shape='sampler')
+            self.add('List', cfg, answers, with_box(key), 'sibling', 'undefined', honest=honest, twin=twin, term=key, box=box,
+                     shape='sampler')
+        # the answer spelled with the sibling itself
+        inp = list(honest_in)
+        inp[user] = answers[user].replace('s', '(' + formula + ')')
+        self.add('List', cfg, answers, inp, 'sibling', 'undefined', honest=honest, twin=honest, term=key, box=user, shape='sampler')
+
     def list_corpus(self):
         cfg = {'variables': ['x'], 'user_functions': [], 'forbidden_message': FORBIDDEN_MESSAGE}
         answers = ['sibling_2^2', 'x+1']
@@ -650,6 +787,11 @@ def generate(seed, tier, escalate):
     g.list_corpus()
     g.format_corpus()
     g.options_corpus()
+    for cls in ('Formula', 'Numerical', 'Matrix', 'List'):
+        for _ in range(3 if tier == 'thorough' else 1):
+            g.history_family(cls)
+    for _ in range(12 if tier == 'thorough' else 3):
+        g.sampler_sibling_family()
     if tier == 'thorough':
         fam = {'Formula': 260, 'Numerical': 90, 'Matrix': 130, 'Sum': 170, 'List': 90}
         per = 8
@@ -717,11 +859,13 @@ def obs_term(code, detail):
 def cfg_term(cfg, obs, dflt_index):
     wl = cfg.get('whitelist', [])
     wlt = '[' + ';'.join('None' if w is None else '(Some %s)' % strl(w) for w in wl) + ']'
-    return ('(mkCfg (dflt %d) %s %s %s %s %s %s %s %s %s %s)' %
+    return ('(mkCfg (dflt %d) %s %s %s %s %s %s %s %s %s %s %s)' %
             (dflt_index, namesl(cfg.get('user_functions', [])), wlt, namesl(cfg.get('blacklist', [])),
              namesl(cfg.get('required_functions', [])), namesl(cfg.get('forbidden_strings', [])),
              namesl(cfg.get('variables', [])), namesl(cfg.get('numbered_vars', [])), namesl(cfg.get('instructor_vars', [])),
-             namesl(obs['constants']), namesl(obs['suffixes'])))
+             namesl(obs['constants']), namesl(obs['suffixes']),
+             namesl(sorted({d for v in cfg.get('sample_from', {}).values()
+                            if isinstance(v, tuple) and v and v[0] == 'dependent' for d in v[1]}))))
 
 
 FIELDS = ['lower', 'upper', 'summand', 'summation_variable']
@@ -923,7 +1067,15 @@ def judge(spec, obs, by_id):
             return ('an answer free of restricted constructs is refused (%s: %s) because the AUTHOR\'s own answer uses them'
                     % (obs['exc'], obs['message']))
         return None
-    if kind == 'control':
+    if kind in ('control', 'baseline'):
+        return None
+    if spec.get('baseline') is not None:
+        b = by_id[spec['baseline']]
+        if 'code' in b and (b['code'], b['detail'] if b['code'] in ('result', 'list') else None) != \
+                (obs['code'], obs['detail'] if obs['code'] in ('result', 'list') else None):
+            return ('outcome depends on earlier submissions: %s %r after the history %r, but %s %r in a fresh interpreter'
+                    % (obs['code'], obs['message'] or obs['detail'], obs.get('history'), b['code'], b['message'] or b['detail']))
+    if kind == 'history-honest':
         return None
     h = by_id[spec['honest']]
     t = by_id[spec['twin']] if spec.get('twin') is not None else h
@@ -948,7 +1100,10 @@ def witness_of(spec, obs, what):
          'observed': [obs.get('code'), obs.get('detail')],
          'spec': {k: spec[k] for k in ('cls', 'cfg', 'answers', 'input', 'kind', 'expect') if k in spec},
          'grader_class': spec['cls'], 'config': repr(spec['cfg']), 'inputs': spec['input']}
-    for k in ('term', 'box', 'shape', 'place', 'entered', 'author_field', 'corpus'):
+    if spec.get('history'):
+        w['spec']['history'] = spec['history']
+        w['history_outcomes'] = obs.get('history')
+    for k in ('term', 'box', 'shape', 'place', 'entered', 'author_field', 'corpus', 'last_failure'):
         if k in spec:
             w[k] = spec[k]
     return w
@@ -979,7 +1134,7 @@ def run(ctx):
         what = judge(spec, obs, by_id)
         if what:
             res.witnesses.append(witness_of(spec, obs, what))
-        if spec['kind'] not in ('honest', 'control'):
+        if spec['kind'] not in ('honest', 'control', 'baseline', 'history-honest'):
             h, t = by_id[spec['honest']], by_id[spec['twin'] if spec.get('twin') is not None else spec['honest']]
             if credited(h) and credited(t):
                 res.nontrivial.add((spec['cls'], repr(spec['cfg']), repr(spec['answers']), repr(spec['input'])))
@@ -1044,7 +1199,7 @@ def classify_known(w, known):
             and (msg.startswith('DependentSamplers depend on undefined quantities')
                  or msg.startswith('Circularly dependent DependentSamplers')
                  or msg.startswith('Formula error in dependent sampling formula'))
-            and w.get('box') is not None and referenced_by_earlier(spec.get('answers', []), w['box'])):
+            and w.get('box') is not None and referenced_by_earlier(spec, w['box'])):
         return K_SIBLING
     if (K_AUTHOR in ids and spec.get('cls') == 'Sum' and w.get('kind') == 'honest'
             and len(w.get('entered', FIELDS)) < 4 and student_fields_clean(spec, w.get('entered', FIELDS))):
@@ -1052,10 +1207,19 @@ def classify_known(w, known):
     return None
 
 
-def referenced_by_earlier(answers, box):
-    key = 'sibling_%d' % (box + 1)
+def referenced_by_earlier(spec, box):
+    """the input of this box is turned into a DependentSampler while a box graded no later than it is sampled: an earlier
+    box's answer names its key, or a DependentSampler of sample_from depends on it (that one is sampled for every box,
+    the first included)"""
     import re as _re
-    return any(_re.search(r'\b%s\b' % key, a) for a in answers[:box])
+    key = 'sibling_%d' % (box + 1)
+    answers = spec.get('answers', [])
+    if any(_re.search(r'\b%s\b' % key, a) for a in answers[:box]):
+        return True
+    for v in spec.get('cfg', {}).get('sample_from', {}).values():
+        if isinstance(v, (tuple, list)) and v and v[0] == 'dependent' and key in v[1]:
+            return True
+    return False
 
 
 def student_fields_clean(spec, entered):
